@@ -7,6 +7,7 @@
 //@include attrs_vocab.vs
 //@include chrono_standin.vs
 //@include formatter_vocab.vs
+//@include survivors_vocab.vs
 use crate::parser::*;
 //@include stack_vocab.vs
 //@include parser_vocab.vs
@@ -362,12 +363,28 @@ pub open spec fn clean_pipeline(cs: Seq<char>, ds: Seq<char>, de: Seq<char>, con
     let mk = mm_spec(collect_spec(r, parts, false).0);
     &&& configured_formatters(fs, sfs)
     &&& crate::formatter::format_exact(fs, sfs, del_from(b, marker_ranges(mk), 0), removed_pos_of(mk), w)
+    // C02 in the words of its statement: the non-whitespace bytes of the output are exactly the non-whitespace
+    // bytes of the source outside the markers (which cover exactly the extents of the ready forest), in order
+    &&& nw(out, 0, out.len() as int) == nw_outside(b, marker_ranges(mk), 0, b.len() as int)
     &&& crate::tokenizer_fns::tvs(ts) == crate::tokenizer_fns::tokenize_spec(cs, ds, de)
     &&& crate::tokenizer_fns::tok_chain(ts, cs, cs.len() as int)
     &&& crate::flatten(parts) == ts
     &&& crate::gp(parts) == crate::stack_parse(ts, crate::tok_nm())
     &&& configured(r, config, b)
     &&& clean_witness(b, out, r, parts, w)
+}
+/// what format_post allows to disappear is whitespace
+pub proof fn lemma_deleted_is_ws(b: Seq<u8>, rp: Seq<crate::RemovedMarker>, w: Seq<Range<usize>>, o: Seq<u8>)
+    requires format_post(b, rp, w, o),
+    ensures forall|p: int| 0 <= p < b.len() && covered(w, p) ==> is_ws(#[trigger] b[p]),
+{
+    assert forall|p: int| 0 <= p < b.len() && covered(w, p) implies is_ws(#[trigger] b[p]) by {
+        assert(deleted_ok(b, rp, p));
+        if exists|i: int| 0 <= i < rp.len() && #[trigger] ws_connected(b, p, rp[i].0 as int) {
+            let i = choose|i: int| 0 <= i < rp.len() && #[trigger] ws_connected(b, p, rp[i].0 as int);
+            assert(ws_connected(b, p, rp[i].0 as int));
+        }
+    }
 }
 pub open spec fn clean_post_full(cs: Seq<char>, ds: Seq<char>, de: Seq<char>, config: ChiritoriConfiguration, out: Seq<u8>) -> bool {
     exists|ts: Seq<crate::tokenizer::Token>, r: Remover, parts: Seq<crate::parser::ContentPart>, w: Seq<Range<usize>>,
@@ -477,6 +494,9 @@ pub proof fn lemma_removed_pos_eq(mk: Seq<RemoveMarker>, rp: Seq<crate::RemovedM
                 && crate::formatter::format_exact(formatter@, structure_formatters@, mid, __rp, w)
             implies clean_pipeline(content@, __ds, __de, __cfg, o, tokens@, remover, parts, w, formatter@, structure_formatters@) by {
             assert(clean_witness(b, o, remover, parts, w));
+            reveal(format_post);
+            lemma_deleted_is_ws(mid, __rp, w, o);
+            lemma_survivors(b, marker_ranges(mk), w);
         }
     }
 //@end
